@@ -68,7 +68,7 @@ fn universe(n: usize) -> Universe {
             miner: 1,
             txs: vec![],
             bad_tx: None,
-            corrupt: None,
+            corrupt: None, back: None,
         });
     }
     let spec = HistSpec { ncfg, treasury: 0, issuance: vec![(0, 1_000_000), (1, 2_000_000)], blocks, gt_policy: true };
